@@ -136,6 +136,33 @@ REGISTRY['C11'] = numeric('C11', 'c11_bundle.cpp', nq=1500, nt=150000, groups_q=
                                '24 bundle operations are computed once and compared bit for bit, element by element, with the standalone element group at offsets from the monitor\'s own prefix sums; 22 Jacobian-like outputs pre-filled with NaN must be '
                                'block-diagonal with exact zeros elsewhere; every generator index of every layout is enumerated; a cell is (operation, layout, element index); ' + RULE_STRATA, assumptions=ASSUME_FP)
 
+def c13_spec():
+    def bins(tier):
+        return [Bin('c13_construct.cpp', b, ['MS=' + sc]) for sc in ('double', 'float') for b in ('asan', 'asan-ndebug')]
+    def run(p, tier, seed, t0):
+        bs = bins(tier)
+        ok, dt = build_all(bs)
+        fail = None
+        for b in bs:
+            if b.error: fail = (fail or '') + ' monitor %s does not build: %s' % (b.name, b.error.strip().split('\n')[0][:300])
+        n = 40000 if tier == 'quick' else 2000000
+        jobs = []
+        for b in bs:
+            if not b.path: continue
+            k = 4 if tier == 'quick' else 8
+            for sh in range(k):
+                jobs.append({'bin': b, 'n': n // k, 'seed': seed * 1000 + sh, 'tag': b.defs[0][3:] + '/' + b.build})
+        fold, f2 = run_sharded(p, tier, seed, jobs, 1800 if tier == 'quick' else 14400)
+        if f2: fail = (fail or '') + f2
+        spec = {'level': 'exploration', 'rule': 'cases cycle through the constructors/setters of SO2, SE2, SO3, SE3, SE_2_3, SGal3, R3 and Bundle(elements): angles from {0, [-pi,pi], +-200 periods, k*pi/2 +- {0,1 ulp,1e-9,1e-6}, 1e-300..1e-3, pi-1e-15..pi-1e-3}, '
+                'Euler angles incl. gimbal pitch = +-pi/2 +- 1e-12..1e-3, unit quaternions in both hemispheres, translations 1e-1..1e6; accessors compared exactly where the constructor copies and with model rotations (Rz*Ry*Rx, Rodrigues via the model expm) otherwise; '
+                'cast<float>/<double>; 14 validating entry points fed rotation data scaled to norm 1+delta*eps for 18 values of delta (|delta|<=0.95 must be accepted, >=1.05 rejected with invalid_argument, the band in between only recorded), in an assertion-enabled and an NDEBUG build; '
+                'normalize() on data scaled by 1e-150..1e150; a cell is (check, scalar, build)',
+                'assumptions': ASSUME_FP + ['entry points without validation by design (operator= from an Eigen vector on the concrete group classes, Map construction, coeffs() write access, Bundle from raw coefficients) are not judged']}
+        return finish(p, tier, seed, fold, spec, t0, harness_fail=fail, extra_cov={'builds': ['asan (assertions on)', 'asan-ndebug'], 'scalars': ['double', 'float']})
+    return {'bins': bins, 'run': run}
+REGISTRY['C13'] = c13_spec()
+
 def c08_spec():
     groups = [('SO2', 'double'), ('SE2', 'double'), ('SO3', 'double'), ('SE3', 'double'), ('SE23', 'double'), ('SGAL3', 'double'), ('BT1', 'double'), ('BT4', 'double'), ('SO3', 'float'), ('SE2', 'float'), ('SE3', 'float')]
     scheds = ['uniform', 'square', 'xxinv', 'tiny', 'pi', 'pingpong']
@@ -457,6 +484,9 @@ MANIFEST_META = {
     'C11': dict(engine='bit-exact differential monitor', design_ref='DESIGN.md 4/C11', technique='bit-exact differential runtime monitor: bundle operation vs per-element operation at independently computed offsets; NaN-prefilled Jacobians',
                 text='For 21 layouts each bundle operation (exp, log, compose, inverse, between, rplus, lplus, rminus, lminus, act with both Jacobians, adj, hat, vee, rjac/ljac and inverses, smallAdj, bracket, generators, inner weights, Random, transform) is compared bit for bit with the same operation on each standalone element placed at the offset given by the monitor\'s own prefix sums; Jacobians pre-filled with NaN must come back block-diagonal with exact zeros elsewhere; element<i>() must alias exactly the i-th coefficients.',
                 note='Layouts are a fixed list covering every element group in first/middle/last position, repeats and single elements; inputs are random draws per layout. ' + NOTE_NUM),
+    'C13': dict(engine='ref-model differential monitor', design_ref='DESIGN.md 4/C13', technique='runtime monitor of constructors/accessors vs model rotations, and of the validation threshold in an assertion-enabled and an NDEBUG build',
+                text='Every constructor and setter of every group is fed angles over +-200 periods and at k*pi/2 +- ulp, gimbal Euler angles, quaternions of both hemispheres and large translations; accessors must return the supplied quantities (exactly where the constructor copies), rotation() must equal the model rotation (Rz*Ry*Rx, Rodrigues) and be orthonormal with det +1, feeding accessors back must reproduce the transformation, cast<> must give an element accepted by the target type; 14 validating entry points must accept norm 1+-0.95 eps and reject 1+-1.05 eps with invalid_argument when assertions are on, and reject nothing with NDEBUG; normalize() must make data scaled by 1e+-150 acceptable.',
+                note='The band (0.95,1.05) eps around the threshold is sampled and only recorded (the computed norm carries ~2u of round-off). ' + NOTE_NUM),
     'C14': dict(engine='tsan launcher', design_ref='DESIGN.md 4/C14', technique='ThreadSanitizer over many process launches with barrier-released concurrent first use of every static + bit-exact comparison with a single-threaded run',
                 text='Each launch releases 2..16 threads from a spinning barrier into the first use in the process of every function-local static of 11 group instantiations and then into 22 const operations per group on shared const elements, tangents and Map<const> views; ThreadSanitizer reports with a frame in /repo/include are violations (counted from log files, deduplicated by innermost manif frames), and every thread must reproduce the single-threaded values bit for bit.',
                 note='Schedules: 48 (quick) / 1500 (thorough) launches, each one first-use schedule (distinct schedule signatures are counted in the evidence); held on those schedules only. TSan sees only what gcc instruments; Random()/setRandom() are excluded (rand()).', ),
